@@ -261,12 +261,12 @@ class Simple16(NumberEncoding):
     def get(self, f, pos, i):
         f.seek(pos)
         base = 0
-        value = unpack_uint_le(f.read(4))
+        value = unpack_uint_le(f.read(4))[0]
         key = value >> self._bitsize
         num = self._num[key]
-        while i > base + num:
+        while i >= base + num:
             base += num
-            value = unpack_uint_le(f.read(4))
+            value = unpack_uint_le(f.read(4))[0]
             key = value >> self._bitsize
             num = self._num[key]
 
